@@ -159,6 +159,42 @@ theorem checkpoint_none (env : Obj → Option Obj) (ins : List Node) (vs : List 
     evalNode env (.task .constNone ins []) = some .none := by
   simp [evalNode, h, evalKw, applyFunc]
 
+
+/-! ### which regenerated Blockwise layers are bound -/
+
+/-- **A regenerated layer all of whose inputs are omitted is a leaf** — whatever kind the inputs are (array names or
+    `TaskRef`s to Delayed / Item / scalar collections): it is the layer `bind` wraps in `chunks.bind(·, blocker)`. -/
+theorem blockwiseLeaf_of_all_omitted (names : List Obj) (indices : List BwArg) (numblocks : List Obj)
+    (hi : ∀ a ∈ indices, match a with
+      | .name k => k ∉ names
+      | .ref k => k ∉ names
+      | .other => True)
+    (hn : ∀ k ∈ numblocks, k ∉ names) : blockwiseLeaf names indices numblocks = true := by
+  unfold blockwiseLeaf
+  simp only [Bool.and_eq_true, Bool.not_eq_true', List.any_eq_false, List.contains_eq_mem, decide_eq_true_eq]
+  constructor
+  · intro a ha
+    have := hi a ha
+    cases a <;> simp_all
+  · intro k hk; simpa using hn k hk
+
+/-- conversely a layer with a regenerated input (by name or by `TaskRef`) is not a leaf -/
+theorem blockwiseLeaf_false_of_ref (names : List Obj) (indices : List BwArg) (numblocks : List Obj) (k : Obj)
+    (hk : k ∈ names) (h : BwArg.ref k ∈ indices ∨ BwArg.name k ∈ indices) :
+    blockwiseLeaf names indices numblocks = false := by
+  unfold blockwiseLeaf
+  rw [Bool.and_eq_false_iff]
+  left
+  simp only [Bool.not_eq_false', List.any_eq_true]
+  rcases h with h | h
+  · exact ⟨_, h, by simpa using hk⟩
+  · exact ⟨_, h, by simpa using hk⟩
+
+/-- a leaf layer's task is wrapped by `bindNode`, hence waits for the blocker (`bind_waits`) and keeps its value
+    (`bind_values`) -/
+example : blockwiseLeaf [.str "y"] [.name (.str "x"), .ref (.str "d")] [.str "x"] = true := by decide
+example : blockwiseLeaf [.str "y", .str "d"] [.name (.str "x"), .ref (.str "d")] [.str "x"] = false := by decide
+
 /-! non-vacuity -/
 example : checkpointReduce (.str "cp") (fun i => .tuple [.str "cp", .int i]) 2 10
     [.int 1, .int 2, .int 3, .int 4, .int 5] [] =
